@@ -29,8 +29,9 @@ def books(ctx):
     tmp = tempfile.mkdtemp(prefix='c16_')
     out = [('shipped example', X.load_example())]
     try:
-        # the first stored workbooks have fixed pump trains: one curve-limited pump (own driver tab), two of them, a torque-limited pump between two of them
-        trains = [('curve',), ('curve', 'curve'), ('curve', 'torque', 'curve')]
+        # the first stored workbooks have fixed pump trains: one curve-limited pump (own driver tab), two of them, a torque-limited pump between two of them,
+        # a pump without a driver limit ('None', the fourth documented value of Pump.limited) before a power-limited one
+        trains = [('curve',), ('curve', 'curve'), ('curve', 'torque', 'curve'), ('None', 'power')]
         for i in range(ctx.n(1, 60) + len(trains)):
             try:
                 pl, path, wb = X.stored_workbook(ctx.rng, tmp, modes=trains[i] if i < len(trains) else None)
